@@ -17,7 +17,7 @@ for patch in $(for pat in $PAT; do ls /verif/mutants/${pat}.patch 2>/dev/null; d
   if ! git apply $patch 2>/dev/null; then echo "$name $prop DOES-NOT-APPLY" >> $OUT; continue; fi
   suite=""
   if [ -n "${SUITE:-}" ]; then
-    r=$(CARGO_TARGET_DIR=$S/target-suite cargo test --workspace --no-fail-fast --offline 2>&1 | grep -E "^test result" | head -1 | grep -o "[0-9]* passed; [0-9]* failed")
+    r=$(CARGO_TARGET_DIR=$S/target-suite timeout 150 cargo test --workspace --no-fail-fast --offline 2>&1 | grep -E "^test result" | head -1 | grep -o "[0-9]* passed; [0-9]* failed")
     suite=" suite=[$r]"
   fi
   t0=$(date +%s)
